@@ -571,6 +571,8 @@ class World:
         elif op in ("extend", "iadd"):
             xs = [pick_mod() for _ in range(rnd.randint(0, 3))]
             xs = list(dict.fromkeys(xs))
+            if xs and rnd.random() < 0.15:
+                xs.insert(rnd.randint(0, len(xs)), rnd.choice(xs))  # twice
             wrap = rnd.choice(ARG_KINDS)
             if rnd.random() < 0.25:
                 # the argument is another IR's module list, or this one
@@ -603,6 +605,8 @@ class World:
             s = rand_slice()
             xs = list(dict.fromkeys(pick_mod() for _ in range(
                 rnd.randint(0, 3))))
+            if xs and rnd.random() < 0.15:
+                xs.insert(rnd.randint(0, len(xs)), rnd.choice(xs))  # twice
             wrap = rnd.choice(ARG_KINDS)
             incoming, args = xs, {"slice": [s.start, s.stop, s.step],
                                   "arg_kind": wrap[0]}
@@ -657,7 +661,11 @@ class World:
         # classify the incoming values for mechanism naming
         member_in = [x for x in incoming if x in cur]
         klass = "plain"
-        if member_in:
+        if len(set(incoming)) != len(incoming):
+            klass = "same-value-twice-in-argument"
+            member_in = member_in or [x for x in incoming
+                                      if incoming.count(x) > 1]
+        elif member_in:
             klass = "value-already-in-same-list"
         elif any(self.parent[x] is not None for x in incoming):
             klass = "value-owned-by-other-ir"
